@@ -1230,6 +1230,57 @@ pub fn hopeless_positions(rng: &mut Rng, tries: usize, want: usize) -> Vec<(&'st
     out
 }
 
+/// A pinned slider captures its pinner with mate - enumerated over EVERY (king, pinner, pinned
+/// square) geometry (a wrong `line` entry or pin mask loses exactly one such move); the rest of the
+/// position is completed by the mate maker, a few attempts per geometry.
+pub fn pinned_capture_mate_family(rng: &mut Rng, shard: u64, nshards: u64, out: &mut Vec<Crafted>) {
+    let mut idx = 0u64;
+    for me in [Col::W, Col::B] {
+        let opp = me.flip();
+        for k in 0..64u8 {
+            for sq_s in 0..64u8 {
+                if !aligned(k, sq_s) {
+                    continue;
+                }
+                let diagonal = file_of(k) != file_of(sq_s) && rank_of(k) != rank_of(sq_s);
+                for b in between_squares(k, sq_s) {
+                    idx += 1;
+                    if idx % nshards != shard {
+                        continue;
+                    }
+                    for attempt in 0..6 {
+                        let own = if attempt % 2 == 0 { Kind::Q } else if diagonal { Kind::B } else { Kind::R };
+                        let pinner = if rng.chance(1, 2) { Kind::Q } else if diagonal { Kind::B } else { Kind::R };
+                        let mut p = Position::empty();
+                        p.turn = me;
+                        p.board[k as usize] = Some((me, Kind::K));
+                        p.board[b as usize] = Some((me, own));
+                        p.board[sq_s as usize] = Some((opp, pinner));
+                        let ek = rng.below(64) as u8;
+                        if p.board[ek as usize].is_some() || !aligned(sq_s, ek) {
+                            continue;
+                        }
+                        let ek_diag = file_of(ek) != file_of(sq_s) && rank_of(ek) != rank_of(sq_s);
+                        if (own == Kind::B && !ek_diag) || (own == Kind::R && ek_diag) {
+                            continue;
+                        }
+                        p.board[ek as usize] = Some((opp, Kind::K));
+                        let m = Mv::new(b, sq_s);
+                        if p.chess_root_ok().is_err() || !p.is_legal(m) || !p.apply(m).in_check() {
+                            continue;
+                        }
+                        let valid = |x: &Position| x.chess_root_ok().is_ok();
+                        if let Some(mated) = mate_maker(rng, &p, m, &valid) {
+                            out.push(Crafted { family: "pinned-piece-captures-pinner-mate", pre: mated, moves: vec![] });
+                            break;
+                        }
+                    }
+                }
+            }
+        }
+    }
+}
+
 /// Mates in one by a capture after which only the kings and exactly two minor pieces remain (the
 /// boundary of "insufficient material").  The list was enumerated with this model by the developer
 /// tool mon-core/src/bin/gen-small-mates.rs; every entry is re-validated here (a capture that mates
